@@ -156,6 +156,16 @@ def run_case(case, rec):
                          dim=dim, min_pts=[-1.0, 0.5][:dim], max_pts=[1.0, 2.5][:dim],
                          nb=4 * per if dim == 2 else 2, bb=bb if dim == 2 else 1,
                          nt=case["n2"], bt=case["b2"], tmin=0.0, tmax=3.0, cartesian=True)
+            if (key + n) % 3 == 1 and n >= 2:
+                # a start size left in the call although refinement is off (documented as ignored then): the epoch
+                # still serves every stored point
+                if kind == "ode":
+                    d["nt_start"] = max(1, n // 2)
+                else:
+                    d["n_start"] = max(1, n // 2)
+                    if kind != "statio2":
+                        d["nt_start"] = max(1, case["n2"] // 2)
+                rec.count("generators_with_a_start_size_but_no_refinement")
             try:
                 g = guard.call(gens.make_generator, d)
             except guard.Unsupported as u:
